@@ -66,7 +66,8 @@ ExecBad(e, i, x) ==
 StackM == {"push", "pop", "call", "ret"}
 StepEv(e) ==
   LET i == e.i IN
-  IF e.carry # st.r THEN {"harness-pre-state-differs-from-carried-state"}
+  IF e.out = "crash" THEN {"out-crash"}            \* whatever the instruction (also an unfetchable one): a step never crashes the host
+  ELSE IF e.carry # st.r THEN {"harness-pre-state-differs-from-carried-state"}
   ELSE IF i.m \notin Known THEN {}
   ELSE LET x == Step(st, i, PPostR(e))
            b == PJudge(e, x)
